@@ -90,7 +90,7 @@ def _check(cls, platform, idxs, ctx):
     case = dict(kind="list", cls=cls, platform=platform, idxs=list(idxs), texts=texts)
     try:
         objs = [klass(t, platform=platform, note=f"n{k}") for k, t in enumerate(texts)]
-        before = [o.line for o in objs]
+        before = [(o.line, o.note, o.uuid) for o in objs]
         out = func(objs)
     except Exception as ex:  # noqa
         want = tuple(S.prefix_cube(*blk[i]) for i in idxs)
@@ -122,8 +122,10 @@ def _check(cls, platform, idxs, ctx):
         bad["more_elements_than_input"] = (len(out), len(idxs))
     if got != sorted(got):
         bad["not_sorted"] = got
-    if [o.line for o in objs] != before:
-        bad["input_modified"] = [o.line for o in objs]
+    if [(o.line, o.note, o.uuid) for o in objs] != before:
+        bad["input_modified"] = [(o.line, o.note) for o in objs]
+    if any(o is i for o in out for i in objs) or len({id(o) for o in out}) != len(out):
+        bad["result_aliases_an_input"] = [o.line for o in out if any(o is i for i in objs)]
     if bad:
         ctx.viol(f"{cls}.collapse:" + "+".join(sorted(bad)), case, bad,
                  [f"{S.int2ip(blk[i][0])}/{blk[i][1]}" for i in idxs])
